@@ -27,6 +27,18 @@ def check(an, rep, tier):
         if r.qualname == 'svd.svd_incomplete':
             for j, rv in enumerate(r.returns):
                 st, detail = tt_skeleton(rv, r.d)
+                if st == 'ok':
+                    from ..poly import Poly, same, definitely_differ
+                    for k, c in enumerate(rv.items):
+                        want = Poly.sym("max(('P', 'I'))[%d]" % k) + 1
+                        n = c.dims[1]
+                        if n is None:
+                            continue
+                        if definitely_differ(n, want):
+                            st, detail = 'violation', 'core %d has mode ' \
+                                'size %r, the sampled tensor has %r there' \
+                                % (k, n, want)
+                            break
                 rep.add('S-ret', r.qualname, 'return path %d of %s'
                         % (j, r.tag()), st, detail)
     for r in runs:
